@@ -183,7 +183,7 @@ fn builder_stages(ck: &mut Check, with_product: bool) {
         // deeper histories over the reduced action set
         let m = BModel::<T>::new_sharp(ck.prop, mon);
         let sharp_depth = match (ck.tier, ck.prop) {
-            (Tier::Quick, "C09") => 6,
+            (Tier::Quick, "C09") => 5,
             (Tier::Quick, _) => 4,
             (Tier::Thorough, "C09") => 7,
             (Tier::Thorough, _) => 5,
@@ -471,6 +471,8 @@ pub fn replay_case(prop: &'static str, case: &Value) -> Option<Vec<Violation>> {
         #[cfg(feature = "typed")]
         "c08-maven-ns" => sweeps::c08_maven_case(case["ns"].as_str()?, &mut acc),
         #[cfg(feature = "typed")]
+        "c08-maven-no-ns" => sweeps::c08_maven_no_namespace(case["name"].as_str()?, &mut acc),
+        #[cfg(feature = "typed")]
         "c15" => sweeps::c15_case(case["input"].as_str()?, &mut acc),
         #[cfg(feature = "typed")]
         "c18-forward" => sweeps::c18_forward(case["ty"].as_str()?, case["combined"].as_str()?, &mut acc),
@@ -514,12 +516,12 @@ pub fn plans_for(prop: &str, tier: Tier) -> Vec<Plan> {
     let all = lens::all_lenses();
     let pick = |names: &[&str]| -> Vec<Lens> { names.iter().map(|n| lens::lens(n)).collect() };
     let base: Vec<Lens> = match prop {
-        "C07" => pick(&["A3", "A1a", "A1b"]),
-        "C13" => pick(&["A2-", "A1a", "A1b", "A3", "A4", "A5a", "A5b", "A6", "A10"]),
+        "C07" => pick(&["A3", "A1a", "A1b", "A12"]),
+        "C13" => pick(&["A2-", "A1a", "A1b", "A3", "A4", "A5a", "A5b", "A6", "A10", "A12"]),
         "C12" => pick(&["A6"]),
-        "C16" => pick(&["A1b", "A2-", "A2s", "A4", "A5b", "A6", "A7", "A10"]),
-        "C08" => pick(&["A7", "A2-", "A1b", "A10"]),
-        "C18" => pick(&["A7"]),
+        "C16" => pick(&["A1b", "A2-", "A2s", "A4", "A5b", "A6", "A7", "A10", "A12"]),
+        "C08" => pick(&["A7", "A2-", "A1b", "A10", "A12"]),
+        "C18" => pick(&["A7", "A12"]),
         _ => all.clone(),
     };
     let mut plans: Vec<Plan> = base.iter().map(|l| Plan { lens: l.clone(), n: l.bound(tier) }).collect();
